@@ -205,7 +205,12 @@ class TreesVsHist(_Base):
 
 
 def harnesses(tier):
-    hs = []
+    # stage lemmas owned by other checks on which "one rule everywhere" rests: the cache key of the trees includes the closed
+    # side (so trees of the other rule are never reused), and a measurement takes its per-bin weight sums from those trees
+    from checks.C01 import ProcessPair
+    from checks.C07 import Step
+
+    hs = [Step(2, 2), ProcessPair(2, 1, "kpc", False), ProcessPair(2, 1, "kpc", True)]
     if tier == "quick":
         hs += [Trees(3, 2), Hist(3, 2), UnbinnedTree(2), TreesVsHist(2, 2)]
     else:
